@@ -583,7 +583,16 @@ pub fn run(a: &Cli) -> Report {
             let _ = std::fs::write(&f, r.to_string());
             let res = run_child("c39", &["--probe".into(), f, "--seed".into(), a.seed.to_string()], &dir, "replay", std::time::Duration::from_secs(60));
             match (res.report, res.death) {
-                (Some(j), None) => merge_report(&mut rep, &j),
+                (Some(j), None) => {
+                    merge_report(&mut rep, &j);
+                    // a pair can show several signatures; the replay is about the one in the file
+                    if let Some(want) = wj.get("sig").and_then(|x| x.as_str()) {
+                        if rep.violations.iter().any(|v| v.sig == want) {
+                            rep.violations.retain(|v| v.sig == want);
+                            rep.violation_counts.retain(|k, _| k == want);
+                        }
+                    }
+                }
                 (_, Some((d, _))) => {
                     rep.eval();
                     rep.violation(
@@ -615,6 +624,17 @@ pub fn run(a: &Cli) -> Report {
         let (p, values) = unit_pair(seed, shard, unit);
         let vi = (sub / REPS.len() as u64) as usize;
         let r = REPS[(sub % REPS.len() as u64) as usize];
+        // a pair that is neither assignable by the rules nor according to the API would never be
+        // matched: dying on its bytes is C07's matter, not type evolution
+        let api_says = guarded(|| (build_type(&p.w), build_type(&p.r)))
+            .ok()
+            .and_then(|(wdt, rdt)| api(&p, wdt, rdt).ok())
+            .map(|x| x.0)
+            .unwrap_or(false);
+        if p.expect_assignable != Some(true) && !api_says {
+            rep.stat("deaths_on_incompatible_pairs(not judged)", 1);
+            return;
+        }
         rep.eval();
         rep.stat(&format!("decode:{}", death.class()), 1);
         rep.nontrivial(fnv_str(&format!("{}|{}|{}", p.edit, r.name(), death.class())));
